@@ -353,6 +353,38 @@ def run(chk):
     from ..history import history_rule
 
     history_rule(chk, "C12.H")
+    # no state between calls: after the enumeration above the long-lived environment has answered thousands of queries
+    # on graphs that reuse the node names a..d; its answers on a few rich graphs (also with k decreasing) must be those
+    # of a fresh environment (memo tables in default arguments, module-level caches)
+    def _norm(r):
+        if r[0] != "return":
+            return ("raise", r[1])
+        v = r[1]
+        if isinstance(v, (set, frozenset)):
+            return ("set", sorted(map(str, v)))
+        if isinstance(v, (list, tuple)) or hasattr(v, "__next__"):
+            v = list(v)
+            if all(isinstance(x, (set, frozenset)) for x in v):
+                return ("sets", sorted(sorted(map(str, x)) for x in v))
+            return ("list", [str(x) for x in v])
+        return ("value", str(v))
+
+    rich = [("diamond+tail", ["a", "b", "c", "d"], [("a", "b"), ("a", "c"), ("b", "d"), ("c", "d")]),
+            ("two-sources", ["a", "b", "c", "d"], [("a", "c"), ("b", "c"), ("c", "d"), ("a", "d")]),
+            ("chain", ["a", "b", "c", "d"], [("a", "b"), ("b", "c"), ("c", "d")]),
+            ("fan-in-3", ["a", "b", "c", "d"], [("a", "d"), ("b", "d"), ("c", "d")])]
+    queries = [("kcuts", ("d", 3)), ("kcuts", ("d", 2)), ("kcuts", ("d", 1)), ("kcuts", ("c", 2)), ("fanin_depth", ("d",)), ("fanout_depth", ("a",)), ("transitive_fanin", ("d",)),
+               ("startpoints", ("d",)), ("reconvergent_fanout_nodes", ()), ("is_cyclic", ()), ("topo_sort", ())]
+    for gname, names, edges in rich:
+        c_long, c_fresh = make(names, edges), make(names, edges)
+        PF = Package(repo)
+        for m, args in queries:
+            got = _norm(P.call_method(FILE, f"Circuit.{m}", c_long, *args))
+            want = _norm(PF.call_method(FILE, f"Circuit.{m}", c_fresh, *args))
+            if m == "topo_sort":
+                got, want = (got[0], sorted(got[1])) if got[0] == "list" else got, (want[0], sorted(want[1])) if want[0] == "list" else want
+            chk.ob("C12.H.no-state-between-calls", f"{m}{args}::{gname}", got == want, file=FILE, func=f"Circuit.{m}", fact={"long_lived_environment": str(got)[:140], "fresh_environment": str(want)[:140]} if got != want else {"same": True},
+                   expect="a query's answer does not depend on earlier queries (on this or any other circuit)")
     chk.floor("graphs enumerated", n_graphs, 200)
     chk.extra["graphs"] = n_graphs
     chk.extra["method_evaluations"] = counters["evals"]
